@@ -75,8 +75,8 @@ type memReadHandle struct{ m *memReadable }
 func (h *memReadHandle) ReadAt(ctx context.Context, p []byte, off int64) error {
 	return h.m.ReadAt(ctx, p, off)
 }
-func (h *memReadHandle) Close() error                                  { return nil }
-func (h *memReadHandle) SetupForCompaction()                           {}
+func (h *memReadHandle) Close() error                                 { return nil }
+func (h *memReadHandle) SetupForCompaction()                          {}
 func (h *memReadHandle) RecordCacheHit(context.Context, int64, int64) {}
 
 // NewReadable returns an objstorage.Readable over data.
